@@ -458,7 +458,7 @@ func init() {
 	}
 }
 
-var hostileAlphabet = []string{"'", "\"", "`", "\\", "-", "/", "*", ";", "(", ")", ",", "\x00", "\t", "\n", " ", "é", "\xff", "{", "}", "a", "Z", "0", "9", "_", "$", "=", ".", "%", "|", "\r"}
+var hostileAlphabet = []string{"\u2028", "\u00a0", "\u200b", "\ufeff", "\u0085", "\x7f", "\x1b", "'", "\"", "`", "\\", "-", "/", "*", ";", "(", ")", ",", "\x00", "\t", "\n", " ", "é", "\xff", "{", "}", "a", "Z", "0", "9", "_", "$", "=", ".", "%", "|", "\r"}
 var hostileConstants = []string{"\\", "\\'", "'--", "*/", "/*", "'; DROP", "x' , (select 1) as y, '", "--", "\\\\", "''", "\"\"", "``", "\\\"", "a\\", "' OR '1'='1", "{p: Int32}", "\\n", "\\x41", "\\0", ")", "\";", "\\u0041", "\\u0027 OR 1=1", "http://h/p;q", "u0041", "xu0027 OR 1=1 --", "x41", "x27;", "0", "b", "r", "U0001F600", "u{41}", "N{DOLLAR SIGN}", "047", "e'"}
 var hostileNumbers = []string{"9007199254740993e0", "900719925474099.3e1", "18446744073709551615e0", "1234567890123456789e0", "0x8000000000000000", "0xFFFFFFFFFFFFFFFE", "0x00000000000000001", "0x0ffffffffffffffff", "0X000000000000000000000a", "00e5", "000e-3", "00E0", "0.0e5", "00.5e1", "0e5", "0", "7", "007", "0x1F", "0X0a", ".5", "1.", "1e3", "1.E+2", "1.50", "0.0", "1234567890123456789012345", "1e400", "0e0", "00", "0xffffffffffffffff"}
 var hostileInts = []string{"0x00000000000000001", "0x0ffffffffffffffff", "0", "7", "007", "0x1F", "0X0a", "00", "18446744073709551615", "1234567890123456789012345"}
